@@ -4,6 +4,8 @@
 package decoder
 
 import (
+	"sort"
+
 	"github.com/hashicorp/hcl-lang/decoder/internal/ast"
 	"github.com/hashicorp/hcl-lang/decoder/internal/schemahelper"
 	"github.com/hashicorp/hcl-lang/schema"
@@ -63,7 +65,15 @@ func (d *PathDecoder) decodeWriteOnlyAttributesForBody(body hcl.Body, bodySchema
 
 			blockContent := ast.DecodeBody(block.Body, blockSchema.Body)
 
-			for _, attr := range blockContent.Attributes {
+			// iterate in stable order (rather than map order)
+			attrNames := make([]string, 0, len(blockContent.Attributes))
+			for name := range blockContent.Attributes {
+				attrNames = append(attrNames, name)
+			}
+			sort.Strings(attrNames)
+
+			for _, name := range attrNames {
+				attr := blockContent.Attributes[name]
 				attrSchema, ok := mergedSchema.Attributes[attr.Name]
 				if ok && attrSchema.IsWriteOnly {
 
